@@ -16,7 +16,8 @@ VARIABLE c
 vars == <<c>>
 
 N(x, p, s) == [xml |-> x, pascal |-> p, snake |-> s]
-Names == [WideText |-> N("WideText", "WideText", "wide_text"), MidText |-> N("MidText", "MidText", "mid_text"), SmallText |-> N("SmallText", "SmallText", "small_text"), small |-> N("small", "Small", "small"),
+Names == [zbody |-> N("zbody", "Zbody", "zbody"), answer |-> N("answer", "Answer", "answer"),
+                     WideText |-> N("WideText", "WideText", "wide_text"), MidText |-> N("MidText", "MidText", "mid_text"), SmallText |-> N("SmallText", "SmallText", "small_text"), small |-> N("small", "Small", "small"),
                      value |-> N("value", "Value", "value"),
                      AllRequired |-> N("AllRequired", "AllRequired", "all_required"),
                      AllOptional |-> N("AllOptional", "AllOptional", "all_optional"),
@@ -274,12 +275,21 @@ WsdlCases ==
                          << Msg("request", << Part("auth", "tns", "AuthHeader"), Part("bodyPart", "tns", "GetItem") >>),
                             Msg("response", << Part("parameters", "tns", "GetItemResponse") >>) >>)) >>,
    imported |-> << Wsdl(<< Imp("Ufar", "far.xsd") >>, << <<"o", "Ufar">> >>,
-                  Common(<< [n |-> "GetFar", action |-> "act", input |-> [msg |-> "request", parts |-> "parameters", headers |-> <<>>],
+                  Common(<< [n |-> "GetFar", action |-> "act", input |-> [msg |-> "request", parts |-> "parameters", headers |-> << Hdr("request", "sess") >>],
                              output |-> [msg |-> "response", parts |-> "parameters", headers |-> <<>>]] >>,
-                         << Msg("request", << Part("parameters", "o", "GetFar") >>), Msg("response", << Part("parameters", "o", "GetFarResponse") >>) >>)),
+                         << Msg("request", << Part("parameters", "o", "GetFar"), Part("sess", "o", "SessionHeader") >>),
+                            Msg("response", << Part("parameters", "o", "GetFarResponse") >>) >>)),
                    Xsd("far.xsd", "Ufar", << <<"o", "Ufar">> >>,
-                       << ElemI("GetFar", << El("farArg", B("string"), 1, "1") >>), ElemI("GetFarResponse", << El("farResult", B("int"), 1, "1") >>) >>) >>]
-WsdlLabels == DOMAIN WsdlCases
+                       << ElemI("GetFar", << El("farArg", B("string"), 1, "1") >>), ElemI("GetFarResponse", << El("farResult", B("int"), 1, "1") >>),
+                          ElemI("SessionHeader", << El("session", B("string"), 1, "1") >>) >>) >>,
+   headers_many |-> << Wsdl(ReqResp \o Headers, <<>>,
+                  Common(<< [n |-> "GetItem", action |-> "act",
+                             input |-> [msg |-> "request", headers |-> << Hdr("request", "auth"), Hdr("request", "trace"), Hdr("request", "sess") >>],
+                             output |-> [msg |-> "response", headers |-> << Hdr("response", "sess"), Hdr("response", "trace") >>]],
+                            [n |-> "Ping", input |-> [msg |-> "request", headers |-> << Hdr("request", "auth"), Hdr("request", "trace"), Hdr("request", "sess") >>]] >>,
+                         << Msg("request", << Part("trace", "tns", "TraceHeader"), Part("sess", "tns", "SessionHeader"), Part("zbody", "tns", "GetItem"), Part("auth", "tns", "AuthHeader") >>),
+                            Msg("response", << Part("sess", "tns", "SessionHeader"), Part("answer", "tns", "GetItemResponse"), Part("trace", "tns", "TraceHeader") >>) >>)) >>]
+WsdlLabels == IF Tier = "quick" THEN DOMAIN WsdlCases \ {"headers_many"} ELSE DOMAIN WsdlCases
 
 Space == IF Slice = "types" THEN {[kind |-> "types", label |-> l] : l \in TypeLabels} ELSE {[kind |-> "wsdl", label |-> l] : l \in WsdlLabels}
 FilesOf(x) == IF x.kind = "types" THEN TypeCases[x.label] ELSE WsdlCases[x.label]
